@@ -232,6 +232,12 @@ func scenarioRelay() int {
 			continue
 		}
 		obs := w.Net.ForCase(c.id)
+		if len(obs) == 0 && c.expect {
+			// expected but not there yet: the driver's readers may be behind on a loaded
+			// machine - wait under the watchdog before the case is judged as not relayed
+			w.Net.WaitCase(c.id, func(o []*wire.Obs) bool { return len(o) >= 1 }, w.BarrierWait)
+			obs = w.Net.ForCase(c.id)
+		}
 		c.nobs = len(obs)
 		if len(obs) == 0 && c.expect {
 			run.Count("expected_relay_not_seen", 1)
